@@ -123,7 +123,7 @@ theorem execOp_counts_clean (c : Cfg) (w : World) (self wc : Option Id) (k : Nat
         · have h1 : CountsH (World.cloneOk { w with ret := .ok } m) [m] := (hH.ret .ok).clone m hmlt
           split
           · exact (CountsH.pushFrame (E := []) (.cleanEnd m false false) h1 (by simp [Frame.ids])).toCounts
-          · have h2 := h1.upd_same m (fun o => { o with borrowed := true }) rfl rfl (fun hb => hb)
+          · have h2 := h1.upd_same m (fun o => { o with borrowed := true }) rfl rfl
             have h3 := CountsH.pushFrame (E := []) (.cleanEnd m true false) h2 (by simp [Frame.ids])
             exact clean_tail c m i aid h3 (by simpa using hmlt)
     · exact h.congr rfl rfl rfl rfl rfl rfl rfl
